@@ -70,8 +70,8 @@ def project(events):
                     notes.append(("bad-log-entry", e["text"]))
                     a = f"SLogAdd {ct(e['text'])}"
                 else:
-                    if m.group(1) != "%.6f" % (e["t"] / 1e6):
-                        notes.append(("log-timestamp", e["text"], e["t"]))
+                    if float(m.group(1)) > e["t"] / 1e6 + 1e-9:
+                        notes.append(("bad-log-entry", e["text"], e["t"]))
                     a = f"SLogAdd {ct(m.group(3))}"
             elif k == "LockAcq":
                 a = "SLockAcq"
@@ -123,8 +123,8 @@ def project(events):
                         notes.append(("bad-log-entry", e["text"]))
                         a = f"RLogAdd {ct(e['text'])}"
                     else:
-                        if m.group(1) != "%.6f" % (e["t"] / 1e6):
-                            notes.append(("log-timestamp", e["text"], e["t"]))
+                        if float(m.group(1)) > e["t"] / 1e6 + 1e-9:
+                            notes.append(("bad-log-entry", e["text"], e["t"]))
                         a = f"RLogAdd {ct(m.group(3))}"
                 elif k == "Get" and e["attr"] == "_keep_alive_pending":
                     a = f"RGetFlag {'true' if e['val'] else 'false'}"
